@@ -53,7 +53,7 @@ static inline std::vector<uint8_t> randomXmi(Rng &r, int songs, int nev)
         d.push_back(0xFF); d.push_back(0x51); d.push_back(3); d.push_back((uint8_t)(tempo >> 16)); d.push_back((uint8_t)(tempo >> 8)); d.push_back((uint8_t)tempo);
         for(int i = 0; i < nev; ++i)
         {
-            uint32_t dl = r.chance(0.3) ? 0 : (uint32_t)r.range(1, 300);
+            uint32_t dl = r.chance(0.3) ? 0 : (uint32_t)r.range(1, loopy ? 24 : 300);   // loopy songs are short: follow-up histories reach their end and second pass
             while(dl > 127) { d.push_back(127); dl -= 127; } if(dl) d.push_back((uint8_t)dl);
             int ch = (int)r.below(16);
             switch(r.weighted({ 40, loopy ? 45 : 20, 8, 8, 4, 4, 2 }))
